@@ -38,6 +38,16 @@ Theorem C13_vehicles_hash_sequence : forall xs ys r r', Forall wf_vehicle xs -> 
   concat (map hash_vehicle xs) ++ r = concat (map hash_vehicle ys) ++ r' -> map erase_vehicle xs = map erase_vehicle ys /\ r = r'.
 Proof. exact vehicles_hash_sequence. Qed.
 Print Assumptions C13_vehicles_hash_sequence.
+(* without the equal-length hypothesis: no value hashes to the empty stream, so whole streams of lists of any two lengths
+   coincide only when the lists agree item by item *)
+Theorem C13_trips_hash_stream_injective : forall xs ys, Forall wf_trip xs -> Forall wf_trip ys ->
+  concat (map hash_trip xs) = concat (map hash_trip ys) -> map erase_trip xs = map erase_trip ys.
+Proof. exact trips_hash_stream_injective. Qed.
+Print Assumptions C13_trips_hash_stream_injective.
+Theorem C13_vehicles_hash_stream_injective : forall xs ys, Forall wf_vehicle xs -> Forall wf_vehicle ys ->
+  concat (map hash_vehicle xs) = concat (map hash_vehicle ys) -> map erase_vehicle xs = map erase_vehicle ys.
+Proof. exact vehicles_hash_stream_injective. Qed.
+Print Assumptions C13_vehicles_hash_stream_injective.
 Theorem C13_vehicle_flush_discipline : forall v, hash_vehicle v = enc c_vehicle (ve_data v).
 Proof. exact hash_vehicle_stream. Qed.
 Print Assumptions C13_vehicle_flush_discipline.
